@@ -59,6 +59,12 @@ var ownedHeaders = []string{"Upgrade", "Connection", "Sec-Websocket-Key", "Sec-W
 func genC14(r *PRNG, tier string) *Scenario {
 	scn := &Scenario{Prop: "C14", Class: "client-handshake", Seed: r.Uint64() >> 1, Sched: genSched(r), HS: &HSScn{}}
 	n := r.Range(1, 4)
+	many := r.Chance(1, 12)
+	if many {
+		// a long history of dials in one run: keys must stay fresh and stale proofs must stay worthless
+		scn.Class = "client-handshake-many-dials"
+		n = r.Range(17, 40)
+	}
 	for i := 0; i < n; i++ {
 		uf := urlForms[r.Intn(len(urlForms))]
 		if r.Chance(2, 3) {
@@ -110,6 +116,21 @@ func genC14(r *PRNG, tier string) *Scenario {
 		}
 		if rep.Status == 101 && rep.BodyLen > 0 && r.Bool() {
 			rep.BodyLen = 0
+		}
+		if many {
+			rep = Reply{Status: 101, Accept: r.PickS([]string{"good", "stale", "stale"}), StaleBack: r.Pick([]int{1, 2, 8, 15, 16, 17, 32}), Upgrade: []string{"websocket"}, Connection: []string{"Upgrade"}}
+			if rep.StaleBack > i {
+				rep.Accept = "good"
+			}
+		}
+		if rep.Status != 101 && rep.BodyLen > 10 && rep.TruncAt == 0 && r.Chance(1, 3) {
+			// a refusal whose body is cut short: by EOF, or by silence that only the handshake time-out ends
+			rep.BodySent = r.Range(1, rep.BodyLen-1)
+			if r.Bool() {
+				rep.CloseAfter = true
+			} else {
+				d.HsTimeoutMs = 2000
+			}
 		}
 		d.Backend = Backend{Kind: "byz", Reply: rep}
 		scn.HS.Dials = append(scn.HS.Dials, d)
@@ -287,6 +308,9 @@ func oracleC14(run *Run) {
 				}
 			}
 			wantBody := rep.BodyLen
+			if rep.BodySent > 0 && rep.BodySent < wantBody {
+				wantBody = rep.BodySent // the body was cut short: whatever arrived (up to 1024 bytes) is handed over
+			}
 			if wantBody > 1024 {
 				wantBody = 1024
 			}
